@@ -55,6 +55,7 @@ pub struct History {
 
 fn u64_of(v: &Value) -> u64 {
     match v {
+        Value::String(s) if s == "max" => u64::MAX,
         Value::String(s) => s.parse().unwrap_or(0),
         Value::Number(n) => n.as_u64().unwrap_or(0),
         _ => 0,
